@@ -47,6 +47,10 @@ fn check_case_once(l: &mut Local, case: &Case) {
             if let Some(v) = inst_exp.vars.iter_mut().find(|v| v.id == *id) {
                 v.substituted = Some(*x);
             }
+            // a value the caller still supplies for a fixed variable is superseded by the fixed one (the
+            // objective and constraints no longer mention the variable, so only this keeps the reported
+            // state consistent with the reported values)
+            full_state.retain(|(i, _)| i != id);
             full_state.push((*id, *x));
         }
     }
@@ -411,7 +415,7 @@ pub fn run(ctx: &Ctx) -> Finish {
     let cons3 = constraint_configs(1);
     let orders = permutations(3);
     let n3 = cons3.len() * orders.len();
-    ctx.note("enumeration3_histories", json!(n3 * 6));
+    ctx.note("enumeration3_histories", json!(n3 * 7 * 5));
     ctx.par(n3, |l, i| {
         let cons = &cons3[i % cons3.len()];
         let ord = &orders[i / cons3.len()];
@@ -424,7 +428,7 @@ pub fn run(ctx: &Ctx) -> Finish {
                 inst.vars[k] = first3[*o].clone();
             }
             l.states += 1;
-            for (fix, rest) in [(vec![(2u64, 0.0)], vec![(1u64, 2.0)]), (vec![(1, -1.0)], vec![(2, 2.0)]), (vec![(1, 2.0), (2, 0.0)], vec![]), (vec![(7, 1.0)], vec![(1, 0.0), (2, 0.0)])] {
+            for (fix, rest) in [(vec![(2u64, 0.0)], vec![(1u64, 2.0)]), (vec![(1, -1.0)], vec![(2, 2.0)]), (vec![(1, 2.0), (2, 0.0)], vec![]), (vec![(7, 1.0)], vec![(1, 0.0), (2, 0.0)]), (vec![(2, 0.0)], vec![(1, 2.0), (2, 2.0)]), (vec![(1, -1.0)], vec![(1, 2.0), (2, 2.0)]), (vec![(1, 2.0), (2, 0.0)], vec![(2, 2.0), (1, 0.0)])] {
                 let dy = dyadic_consts(&inst) || fix.iter().chain(rest.iter()).any(|(id, x)| *id == 2 && *x == 0.0);
                 check_case(l, &Case { inst: inst.clone(), state: rest, bit_exact: dy, pre_fix: fix });
             }
